@@ -230,8 +230,8 @@ impl Property for P {
     }
     fn cases(tier: Tier) -> u64 {
         match tier {
-            Tier::Quick => 400,
-            Tier::Thorough => 12_000,
+            Tier::Quick => 2_400,
+            Tier::Thorough => 40_000,
         }
     }
     fn chunk(_t: Tier) -> u64 {
